@@ -38,6 +38,8 @@ type Party interface {
 	unlock()
 	noteEarlyMessage()
 	takeEarlyMessages() bool
+	setFailed(*Error)
+	failure() *Error
 }
 
 type BaseParty struct {
@@ -46,6 +48,8 @@ type BaseParty struct {
 	FirstRound Round
 	// set when a message was stored before Start(); Start() then evaluates the stored messages
 	earlyMessages bool
+	// set when a round's Start() failed: the party has aborted and must not be advanced any further
+	failed *Error
 }
 
 func (p *BaseParty) Running() bool {
@@ -119,6 +123,14 @@ func (p *BaseParty) takeEarlyMessages() bool {
 	return early
 }
 
+func (p *BaseParty) setFailed(err *Error) {
+	p.failed = err
+}
+
+func (p *BaseParty) failure() *Error {
+	return p.failed
+}
+
 func (p *BaseParty) lock() {
 	p.mtx.Lock()
 }
@@ -155,6 +167,7 @@ func BaseStart(p Party, task string, prepare ...func(Round) *Error) *Error {
 		common.Logger.Debugf("party %s: %s round %d finished", p.PartyID(), task, 1)
 	}()
 	if err := p.round().Start(); err != nil {
+		p.setFailed(err)
 		return err
 	}
 	if !p.takeEarlyMessages() {
@@ -171,6 +184,7 @@ func BaseStart(p Party, task string, prepare ...func(Round) *Error) *Error {
 		}
 		if p.advance(); p.round() != nil {
 			if err := p.round().Start(); err != nil {
+				p.setFailed(err)
 				return err
 			}
 		}
@@ -190,6 +204,11 @@ func BaseUpdate(p Party, msg ParsedMessage, task string) (ok bool, err *Error) {
 		return ok, err
 	}
 	p.lock() // data is written to P state below
+	if failed := p.failure(); failed != nil {
+		// a round of this party already aborted: later messages must not advance it into rounds that
+		// depend on results the aborted round never produced
+		return r(false, failed)
+	}
 	common.Logger.Debugf("party %s received message: %s", p.PartyID(), msg.String())
 	if p.round() != nil {
 		common.Logger.Debugf("party %s round %d update: %s", p.PartyID(), p.round().RoundNumber(), msg.String())
@@ -205,6 +224,7 @@ func BaseUpdate(p Party, msg ParsedMessage, task string) (ok bool, err *Error) {
 		if p.round().CanProceed() {
 			if p.advance(); p.round() != nil {
 				if err := p.round().Start(); err != nil {
+					p.setFailed(err)
 					return r(false, err)
 				}
 				rndNum := p.round().RoundNumber()
